@@ -86,6 +86,7 @@ func main() {
 		}
 		rep.SetConfig("")
 	}()
+	rules.ApplyDomain(spec, rep)
 	if *keysOnly {
 		var ks []string
 		for _, o := range rep.Obls {
